@@ -8,8 +8,9 @@ CONSTANTS
  Names <- TinyNames
  Datas = {"d0", "d1"}
  Prefixes <- TinyPrefixes
- MaxOps = 4
+ MaxOps = 3
  Styles = {"write"}
  EmptyData = "d0"
  CopyOn = TRUE
  CopyMiss <- TinyNames
+ Handles = {1}
